@@ -98,6 +98,16 @@ Go ranges over a map in an unspecified order; the list's order stands for whiche
 is to hold for the code must therefore not depend on it (the refinement theorems state where they do not) -/
 def forRangeRet (m : List (κ × ν)) (body : κ × ν → Option ρ) : Option ρ := m.findSome? body
 
+/-- `delete(m, k)` -/
+def mapDel [BEq κ] (m : List (κ × ν)) (k : κ) : List (κ × ν) := m.filter fun kv => !(kv.1 == k)
+
+/-- the indices of `for i := a; i < b; i += s` (s > 0); `fuel` bounds the number of iterations -/
+def rangeStepAux (b s : Int) : Nat → Int → List Int
+  | 0, _ => []
+  | fuel + 1, a => if a < b then a :: rangeStepAux b s fuel (a + s) else []
+
+def rangeStep (a b s : Int) : List Int := if 0 < s then rangeStepAux b s (b - a).toNat a else []
+
 /-- how a loop body ended: go on with the next entry, leave the loop (`break`), leave the function (`return r`) -/
 inductive Ctl (ρ : Type)
   | next | brk | ret (r : ρ)
